@@ -615,8 +615,17 @@ func (g *c08Gen) freeFields(dst reflect.Value, template reflect.Type, planned ma
 	}
 }
 
+// c08FieldsGenerated counts, per parameter (scope + Go field name), how often it was given a generated value
+// (evidence only: shows that reflection reaches every parameter).
+var c08FieldsGenerated = map[string]int{}
+
 // set assigns a generated value to field f (of the template type) inside dst.
 func (g *c08Gen) set(dst reflect.Value, f reflect.StructField, l string) reflect.Value {
+	scope := "path."
+	if strings.HasPrefix(l, "g") {
+		scope = "global."
+	}
+	c08FieldsGenerated[scope+f.Name]++
 	target := dst.FieldByName(f.Name)
 	if !target.IsValid() {
 		g.t.Fatalf("harness: %v has no field %s", dst.Type(), f.Name)
